@@ -23,40 +23,15 @@ def check(ctx, run):
     run.assume("user test bodies do not register or unlink tests while the registry loop runs (framework functions reachable from the loop are checked not to)")
     run.not_decided.append("string comparison semantics of group/name matching (SimpleString operator== / contains: C13)")
     run.not_decided.append("quality of the random source; only that every drawn index is in range and swaps permute")
-    run.rule("R1", "accounting identity: per loop iteration countTest x1 and exactly one of runOneTest (-> countRun|countIgnored x1 in every override) or countFilteredOut x1; the walk follows next_ from tests_ and nothing in the framework rewires it", floor=9)
+    run.rule("R1", "accounting identity: TestRegistry::runAllTests folded over every list of 0..4 tests x group pattern x selection outcome: countTest once per test, shouldRun asked once with the registry's filters, runOneTest exactly once iff selected (-> countRun|countIgnored x1 in every override) else countFilteredOut once; getNext follows next_ and nothing in the framework rewires the list", floor=9)
     run.rule("R2", "selection: shouldRun = match(group) && match(name); match = true on empty list else OR over the list (folded for all lists up to 3 filters x all outcomes); TestFilter::match folded over all 16 valuations = invert xor (strict ? equals : contains)", floor=32, exhaustive=True)
     run.rule("R3", "permutation: array elements written only by the fill loop and swap; swap exchanges; shuffle/reverse index bounds; relink chains all entries in array order (folded for 0..4 entries); the registry stores the new first test", floor=16)
-    run.rule("R4", "balanced group notifications: per iteration Start iff groupStart (then cleared), End iff endOfGroup(test) (then set); endOfGroup is true at the end of the list", floor=6)
+    run.rule("R4", "balanced group notifications: the folded registry run emits exactly the reference notification sequence (one group start before / one group end after every maximal run of one group name, test start/run/end bracketed, in list order) for every list of 0..4 tests; endOfGroup folded over its 8 cases", floor=6)
 
     reg = prog.fn("TestRegistry::runAllTests")
     run.analysed(reg)
-    head, body = loop_head_and_body(reg, lambda k: k == "test")
-    if head is None:
-        raise AnalysisBroken("registry loop over tests not found")
-
     # ---------------- R1 ----------------------------------------------------
-    it_paths = enumerate_paths(reg, start_block=body, end_blocks={head["id"]})
-    for p in it_paths:
-        names = [(prog.callee_name(reg, c) or "").split("::")[-1] for c in path_calls(prog, reg, p)]
-        sr = p.val().get("testShouldRun(test, result)")
-        why = []
-        if p.end != "endblock":
-            why.append("the loop body leaves the loop (%s): remaining tests would not run" % p.end)
-        if names.count("countTest") != 1:
-            why.append("countTest called %d times" % names.count("countTest"))
-        if sr is None or names.count("runOneTest") != (1 if sr else 0):
-            why.append("runOneTest called %d times with testShouldRun=%s" % (names.count("runOneTest"), sr))
-        run.ob("R1", "iteration [%s]" % short(p.describe(reg), 100), reg.site, not why, witness=[n for n in names if n.startswith(("count", "run", "current"))], what="; ".join(why))
-    ts = prog.fn("TestRegistry::testShouldRun")
-    run.analysed(ts)
-    for p in enumerate_paths(ts):
-        names = [(prog.callee_name(ts, c) or "").split("::")[-1] for c in path_calls(prog, ts, p)]
-        sr = [v for k, v in p.val().items() if "shouldRun(" in k]
-        rv = const_value(ts, ts.node(p.ret.get("value"))) if p.ret is not None else None
-        ok = len(sr) == 1 and rv == (1 if sr[0] else 0) and names.count("countFilteredOut") == (0 if sr[0] else 1)
-        run.ob("R1", "testShouldRun [%s]: filtered-out counted iff not selected" % p.describe(ts), ts.site, ok, witness={"returns": rv, "calls": names})
-    c0 = [render(ts, c) for c in ts.calls() if (prog.callee_name(ts, c) or "").endswith("shouldRun")]
-    run.ob("R1", "testShouldRun asks the test with the registry's group and name filters", ts.site, c0 == ["%s->shouldRun(groupFilters_, nameFilters_)" % ts.params[0]["name"]], witness=c0)
+    registry_rules(prog, run, "R1", "accounting")
     base = [m for m in prog.records.get("UtestShell", {}).get("methods", []) if m["name"] == "runOneTest"]
     if not base:
         raise AnalysisBroken("UtestShell::runOneTest not declared")
@@ -74,10 +49,6 @@ def check(ctx, run):
         run.ob("R1", "%s counts the test as run or ignored exactly once on every path" % f.qn, f.site, ok, witness=res["return_counts"])
     if nov < 2:
         run.broke("fewer than 2 runOneTest implementations found")
-    # the walk
-    inc = [(l, render(reg, r)) for l, r, n in assignments(reg) if l == "test"]
-    ini = {k: render(reg, v) for k, v in local_inits(reg).items()}
-    run.ob("R1", "the loop walks from tests_ along getNext()", reg.site, ini.get("test") == "tests_" and inc == [("test", "test->getNext()")], witness={"init": ini.get("test"), "step": inc})
     gn = prog.fn("UtestShell::getNext")
     rets = [render(gn, gn.node(n.get("value"))) for n in gn.walk() if n["k"] == "ReturnStmt"]
     run.ob("R1", "getNext returns next_", gn.site, rets == ["next_"], witness=rets)
@@ -105,13 +76,25 @@ def check(ctx, run):
     # ---------------- R2 ----------------------------------------------------
     sr = prog.fn("UtestShell::shouldRun")
     run.analysed(sr)
-    rets = [render(sr, sr.node(n.get("value"))) for n in sr.walk() if n["k"] == "ReturnStmt"]
     g, nm = sr.params[0]["name"], sr.params[1]["name"]
-    exp = "(match(group_, %s) && match(name_, %s))" % (g, nm)
-    alt = "(match(name_, %s) && match(group_, %s))" % (nm, g)
-    norm = [r.replace(".asCharString()", "") for r in rets]
-    run.ob("R2", "shouldRun = match(group_, groupFilters) && match(name_, nameFilters)", sr.site, norm in ([exp], [alt]), witness=rets,
-           what="" if norm in ([exp], [alt]) else "group/name and their filter lists are not paired as documented")
+    bad = None
+    try:
+        for mg, mn in itertools.product((1, 0), repeat=2):
+            seen = []
+
+            def match_hook(*a_, mg=mg, mn=mn):
+                pair = tuple(a_[-2:])
+                seen.append(pair)
+                return {(("ptr", "G", 0), 81): mg, (("ptr", "N", 0), 82): mn}.get(pair)
+            ev = Evaluator(prog, sr, env={"group_": ("ptr", "G", 0), "name_": ("ptr", "N", 0), g: 81, nm: 82}, calls={"UtestShell::match": match_hook})
+            ev.run_blocks(sr.entry, max_steps=300)
+            r = getattr(ev, "ret", None)
+            if r != (1 if mg and mn else 0) and bad is None:
+                bad = "group matches=%d, name matches=%d: shouldRun returns %s" % (mg, mn, r)
+    except Unknown as u:
+        bad = "match is asked about something else than (group_, groupFilters) / (name_, nameFilters): %s; asked %s" % (u, [str(x) for x in seen])
+    run.ob("R2", "shouldRun = match(group_, groupFilters) && match(name_, nameFilters)", sr.site, bad is None, witness=bad or "folded over the 4 outcomes of the two matches",
+           what="" if bad is None else "group/name and their filter lists are not paired as documented: " + bad)
     mf = prog.fn("UtestShell::match")
     run.analysed(mf)
     tname, fname = mf.params[0]["name"], mf.params[1]["name"]
@@ -292,35 +275,81 @@ def check(ctx, run):
     group_balance(prog, run, "R4")
 
 
-def group_balance(prog, run, rid):
-    """per-iteration transition of the registry loop on groupStart / endOfGroup (shared with C20.R4)"""
+def registry_lists(maxn=4):
+    for n in range(maxn + 1):
+        for gp in itertools.product("AB", repeat=n):
+            if n and gp[0] != "A":
+                continue        # group names are symmetric
+            yield gp
+
+
+def registry_rules(prog, run, rid, aspect):
+    """TestRegistry::runAllTests folded over every list of up to 4 tests x group pattern x selection outcome and
+    compared with the reference run (rules/shared.registry_reference). aspect 'accounting': counts and runs;
+    'groups': the order of the group / test notifications (shared with C20.R4); 'separate': -p marks (C11.R4)."""
+    from .shared import registry_fold, registry_reference
     reg = prog.fn("TestRegistry::runAllTests")
     run.analysed(reg)
-    head, body = loop_head_and_body(reg, lambda k: k == "test")
-    if head is None:
-        raise AnalysisBroken("registry loop over tests not found")
-    for gs in (True, False):
-        for p in enumerate_paths(reg, start_block=body, end_blocks={head["id"]}, init_val={"groupStart": gs}):
-            names = [(prog.callee_name(reg, c) or "").split("::")[-1] for c in path_calls(prog, reg, p)]
-            eog = p.val().get("endOfGroup(test)")
-            asg = [(l, render(reg, r)) for l, r, n in assignments(reg, p) if l == "groupStart"]
-            why = []
-            if names.count("currentGroupStarted") != (1 if gs else 0):
-                why.append("group start notified %d times with groupStart=%s" % (names.count("currentGroupStarted"), gs))
-            if eog is None:
-                why.append("endOfGroup(test) is not evaluated on this iteration path")
-            else:
-                if names.count("currentGroupEnded") != (1 if eog else 0):
-                    why.append("group end notified %d times with endOfGroup=%s" % (names.count("currentGroupEnded"), eog))
-                final = asg[-1][1] if asg else None
-                state_after = {"true": True, "false": False}.get(final, gs)
-                if state_after != bool(eog):
-                    why.append("groupStart is %s after an iteration whose endOfGroup is %s" % (state_after, eog))
-            if "currentGroupStarted" in names and "currentGroupEnded" in names and names.index("currentGroupStarted") > names.index("currentGroupEnded"):
-                why.append("end notified before start")
-            run.ob(rid, "iteration with groupStart=%s [%s]" % (gs, short(p.describe(reg), 90)), reg.site, not why, witness=[n for n in names if n.startswith("current")], what="; ".join(why))
-    ini = {k: render(reg, v) for k, v in local_inits(reg).items()}
-    run.ob(rid, "the first test opens a group", reg.site, ini.get("groupStart") == "true", witness=ini.get("groupStart"))
+    for g in prog.functions.values():
+        if g.qn in ("TestRegistry::testShouldRun", "TestRegistry::endOfGroup"):
+            run.analysed(g)
+    NOTIF = ("testsStarted", "testsEnded", "currentGroupStarted", "currentGroupEnded", "currentTestStarted", "currentTestEnded", "runOneTest")
+    for gp in registry_lists():
+        n = len(gp)
+        bad = None
+        cases = 0
+        for sel in itertools.product((1, 0), repeat=n):
+            tests = list(zip(gp, sel))
+            for flags in (((0, 0), (1, 1), (1, 0), (0, 1)) if aspect == "separate" or n <= 2 else ((0, 0),)):
+                cases += 1
+                try:
+                    log, env = registry_fold(prog, tests, flags)
+                except Unknown as u:
+                    if "unbounded recursion" in str(u) or "steps" in str(u):
+                        bad = bad or "tests %s: the walk over the list does not end (%s)" % (tests, u)
+                        continue
+                    raise AnalysisBroken("%s.%s: the registry loop cannot be folded over %s: %s" % (run.pid, rid, tests, u))
+                ref = registry_reference(tests, flags)
+                why = None
+                if aspect == "accounting":
+                    for i in range(n):
+                        runs = log.count(("runOneTest", i))
+                        if runs != (1 if sel[i] else 0):
+                            why = "test #%d (%s) is run %d times" % (i, "selected" if sel[i] else "filtered out", runs)
+                        asks = [e for e in log if e[0] == "shouldRun" and e[1] == i]
+                        if len(asks) != 1 or asks[0][2:] != (81, 82):
+                            why = why or "test #%d is asked shouldRun %s (expected once with the registry's group and name filters)" % (i, [e[2:] for e in asks])
+                    if log.count(("countTest",)) != n:
+                        why = why or "countTest called %d times for %d tests" % (log.count(("countTest",)), n)
+                    if log.count(("countFilteredOut",)) != sel.count(0):
+                        why = why or "countFilteredOut called %d times for %d filtered-out tests" % (log.count(("countFilteredOut",)), sel.count(0))
+                    if env.get("currentRepetition_") != 4:
+                        why = why or "the repetition counter goes from 3 to %s" % (env.get("currentRepetition_"),)
+                elif aspect == "groups":
+                    got = [e for e in log if e[0] in NOTIF]
+                    want = [e for e in ref if e[0] in NOTIF]
+                    if got != want:
+                        k = next((j for j in range(min(len(got), len(want))) if got[j] != want[j]), min(len(got), len(want)))
+                        why = "notification #%d is %s, expected %s" % (k, got[k] if k < len(got) else "missing", want[k] if k < len(want) else "nothing")
+                else:
+                    for i in range(n):
+                        for fi, nm in enumerate(("setRunInSeperateProcess", "setRunIgnored")):
+                            c = log.count((nm, i))
+                            if c != (1 if flags[fi] else 0):
+                                why = why or "test #%d: %s called %d times with the flag %s" % (i, nm, c, "on" if flags[fi] else "off")
+                            elif flags[fi] and sel[i] and log.index((nm, i)) > log.index(("runOneTest", i)):
+                                why = why or "test #%d runs before %s" % (i, nm)
+                if why and bad is None:
+                    bad = "tests (group, selected) %s flags %s: %s" % (tests, flags, why)
+        label = {"accounting": "every test counted once, asked once, run exactly once iff selected, else counted as filtered out",
+                 "groups": "tests started/ended, one group start before and one group end after each maximal run of one group, test start/run/end in list order",
+                 "separate": "every test is marked for the separate-process runner / run-ignored before it runs iff the registry flag is on"}[aspect]
+        run.ob(rid, "registry run folded over groups %s x %d selection/flag cases: %s" % ("".join(gp) or "(empty list)", cases, label), reg.site, bad is None, witness=bad or "%d cases equal the reference run" % cases, what=bad or "")
+
+
+def group_balance(prog, run, rid):
+    """group notifications of the registry loop (shared with C20.R4)"""
+    registry_rules(prog, run, rid, "groups")
     eg = prog.fn("TestRegistry::endOfGroup")
     run.analysed(eg)
     t = eg.params[0]["name"]
